@@ -30,6 +30,48 @@ def fn(d):
     return RawTla("(" + " @@ ".join(f'"{k}" :> {{{", ".join(map(str, sorted(v)))}}}' for k, v in d.items()) + ")")
 
 
+def epochs(ctx, thorough):
+    """TLC enumerates the corner grid of (year, day, second, microsecond), the real writer is run on each, TLC judges the distance."""
+    import json
+    import os
+    consts = {"Years": {1999, 2000, 2012, 2013}, "Doys": {1, 59, 60} if not thorough else {1, 2, 59, 60, 61, 100, 364},
+              "Secs": {0, 1, 43200, 86398, 86399} if not thorough else {0, 1, 59, 60, 3599, 43199, 43200, 86340, 86398, 86399},
+              "Uss": {0, 1, 431, 432, 433, 567, 500000, 999567, 999568, 999569, 999999}}
+    name, mc, cl = tlcmod.wrap("TleEpoch", consts)
+    r = ctx.tlc(name, label="TleEpoch corner grid", cfg_text="INIT GInit\nNEXT GNext\n" + cl + "INVARIANT FracSane\nCHECK_DEADLOCK FALSE\n",
+                extra_files={name + ".tla": mc}, workers=8, dump=True, timeout=900)
+    grid = [{"year": s["year"], "doy": s["doy"], "sec": s["sec"], "us": s["us"]} for s in r.dump]
+    chunks = [grid[i::8] for i in range(8) if grid[i::8]]
+    events, errors = [], []
+    for res in ctx.harness_parallel("tle_epoch.py", [{"grid": c, "labels": ["UTC", "TAI", "TT"]} for c in chunks], procs=8):
+        events += res["events"]
+        errors += res["errors"]
+    for e in errors[:3]:
+        ctx.violation("tle/epoch-raises", f"Tle.from_orbit raised for the epoch {e['grid']} ({e['label']}): {e['error']}", e)
+    path = os.path.join(ctx.scratch, "tle-epochs.json")
+    with open(path, "w") as fh:
+        json.dump({"events": [{k: v for k, v in e.items() if k not in ("text", "label", "dot", "error")} for e in events]}, fh)
+    r2 = ctx.tlc(name, label="TleEpoch judgement", cfg_text="INIT TInit\nNEXT TNext\n" + cl + "INVARIANT Report\nCHECK_DEADLOCK FALSE\n",
+                 extra_files={name + ".tla": mc}, workers=4, env={"TRACE_FILE": path}, timeout=900)
+    if r2.distinct < len(events) or not events:
+        from lib.ctx import MachineryFailure
+        raise MachineryFailure(f"TleEpoch visited {r2.distinct} states for {len(events)} events")
+    bad = 0
+    for (k, f) in r2.prints:
+        e = events[k - 1]
+        bad += 1
+        for c in sorted(f):
+            ctx.violation(f"tle/epoch-{c}", f"orbit dated {e['year']} day {e['doy']} {e['sec']} s {e['us']} us ({e['label']} label): Tle.from_orbit wrote "
+                                            f"'{e['text'][18:32]}' and the reader gives {e['ryear']} day {e['rdoy']} {e['rsec']} s {e['rus']} us - clause {c} "
+                                            f"(the epoch is kept to 1e-8 day = 864 us)", e)
+    ctx.clause("an orbit dated by any UTC microsecond is written with its epoch to 1e-8 day, in 69-character lines, and read back (TleEpoch.tla)",
+               len(events) + len(errors), bad + len(errors))
+    ctx.evaluations += len(events)
+    ctx.traces += len(events)
+    for e in events:
+        ctx.nontrivial.add(f"epoch:{e['year']}:{e['doy']}:{e['sec']}:{e['us']}")
+
+
 def run(ctx):
     thorough = ctx.tier == "thorough"
     rnd = random.Random(ctx.seed)
@@ -64,13 +106,15 @@ def run(ctx):
     for res in ctx.harness_parallel("tle_replay.py", payloads, procs=16):
         ctx.absorb(res)
     ctx.extra["stream_texts"] = len(streams)
+    # ---- orbits whose epoch does not come from a TLE text: any UTC microsecond (TleEpoch.tla) --------------------------------------
+    epochs(ctx, thorough)
     # ---- the repository's own test-suite: every TLE text it parses, judged by the column table (TleTrace.tla) ----------------
     from checks import suite
     suite.run(ctx, "C12", "tles")
     ctx.exhaustive = False
     ctx.assumptions += [
-        "classification is always 'U' (the writer has no other); zero is written canonically ('00000-0', ' .00000000') and a "
-        "zero exponent as '+0'; day-of-year <= 365",
+        "zero is written canonically ('00000-0', ' .00000000') and a zero exponent as '+0'; day 366 in leap years only for generated texts "
+        "(the writer's 'day one beyond a common year' at the very end of the year is accepted by TleEpoch.tla)",
         "texts pairing a valid line 1 with a valid line 2 of another object are outside the contract; the name attached to an "
         "entry after an orphan line is not demanded",
     ]
